@@ -32,7 +32,7 @@ CSV_METRIC = {'osnr01': 'OSNR-0.1nm (average)', 'snr01': 'SNR-0.1nm (average)', 
               'snrmin': 'SNR-0.1nm (min)', 'snrmax': 'SNR-0.1nm (max)', 'pdl': 'PDL_penalty', 'cd': 'CD_penalty',
               'pmd': 'PMD_penalty'}
 NO_M = dict({k: NONE for k in METRIC_KEYS}, power=NONE, bw=NONE)
-NO_RX = {k: NONE for k in METRIC_KEYS}
+NO_RX = dict({k: NONE for k in METRIC_KEYS}, part=0)    # part: some but not all carriers out of tolerance (coverage only)
 NO_REV = {k: NONE for k in CSV_METRIC}
 
 
@@ -56,6 +56,12 @@ VERIF_TRX = [
                        {'pmd': 0, 'penalty_value': 0}, {'pmd': 100, 'penalty_value': 1}]},
         {'format': 'p2', 'baud_rate': 32e9, 'OSNR': 13, 'bit_rate': 50e9, 'roll_off': 0.15, 'tx_osnr': 40,
          'min_spacing': 37.5e9, 'cost': 1}]},
+    # a CD tolerance that ends INSIDE the per-carrier spread of accumulated dispersion of the Lannion-Lorient route of the
+    # crafted bench (1686..2572 ps/nm): the penalty is infinite for part of the carriers only
+    {'type_variety': 'VerifEdge', 'frequency': {'min': 191.35e12, 'max': 196.1e12}, 'mode': [
+        {'format': 'e1', 'baud_rate': 32e9, 'OSNR': 11, 'bit_rate': 100e9, 'roll_off': 0.15, 'tx_osnr': 40,
+         'min_spacing': 37.5e9, 'cost': 1,
+         'penalties': [{'chromatic_dispersion': -1e3, 'penalty_value': 0}, {'chromatic_dispersion': 2100, 'penalty_value': 0.5}]}]},
     # thresholds no path of the benches reaches: NO_FEASIBLE_MODE (automatic) and MODE_NOT_FEASIBLE (forced)
     {'type_variety': 'VerifHard', 'frequency': {'min': 191.35e12, 'max': 196.1e12}, 'mode': [
         {'format': 'h1', 'baud_rate': 32e9, 'OSNR': 30, 'bit_rate': 100e9, 'roll_off': 0.15, 'tx_osnr': 40,
@@ -100,7 +106,10 @@ def _topo(name):
     from gnpy.tools.json_io import load_gnpy_json
     if name in ('meshV2', 'meshV2+island'):
         t = load_gnpy_json(EX / 'meshTopologyExampleV2.json')
-        if name.endswith('island'):          # an unreachable site, so that NO_PATH can be realised
+        if name.endswith('island'):          # an unreachable site, so that NO_PATH can be realised; fibres with a
+            for e in t['elements']:          # dispersion slope (0.07 ps/nm2/km), so that accumulated CD differs per carrier
+                if e['type'] == 'Fiber':
+                    e.setdefault('params', {})['dispersion_slope'] = 70.0
             loc = {'location': {'city': 'Island', 'region': '', 'latitude': 0, 'longitude': 0}}
             t['elements'] += [{'uid': 'trx Island', 'type': 'Transceiver', 'metadata': loc},
                               {'uid': 'roadm Island', 'type': 'Roadm', 'metadata': loc}]
@@ -111,6 +120,9 @@ def _topo(name):
         return load_gnpy_json(TD / 'testTopology_expected.json')
     if name == 'CORONET':
         return load_gnpy_json(TD / 'CORONET_Global_Topology_expected.json')
+    if name == 'ila':                       # workbook topology with in-line amplifier sites (one amplifier per direction)
+        from gnpy.tools.convert import xls_to_json_data
+        return xls_to_json_data(TD / 'ila_constraint.xlsx')
     raise KeyError(name)
 
 
@@ -122,7 +134,7 @@ class _BenchEqpt(dict):
         return dict.__getitem__(self, base)
 
 
-BENCH_EQPT = _BenchEqpt({'meshV2': 'ex', 'meshV2+island': 'ex', 'testTopology': 'td', 'CORONET': 'ex'})
+BENCH_EQPT = _BenchEqpt({'meshV2': 'ex', 'meshV2+island': 'ex', 'testTopology': 'td', 'CORONET': 'ex', 'ila': 'ex'})
 
 # process-wide simulation parameters a bench runs under: 'bench@sim'.  '' = the defaults (analytic GN model);
 # the GGN variants evaluate the NLI on a few channels spread over the propagated comb and interpolate
@@ -215,7 +227,8 @@ TRX = {'meshV2+island': [('Voyager', 'mode 1', 50e9), ('Voyager', None, 75e9), (
                          ('Voyager', 'mode 2', 75e9), ('vendorA_trx-type1', 'mode 1', 50e9),
                          ('vendorA_trx-type1', None, 75e9), ('VerifHard', None, 75e9), ('VerifHard', 'h1', 50e9),
                          ('VerifDense', 'd1', 25e9), ('Voyager', None, 30e9), ('VerifDense', None, 25e9),
-                         ('VerifMixed', 'p1', 50e9), ('VerifMixed', 'p2', 50e9), ('VerifMixed', None, 50e9)],
+                         ('VerifMixed', 'p1', 50e9), ('VerifMixed', 'p2', 50e9), ('VerifMixed', None, 50e9),
+                         ('VerifEdge', 'e1', 50e9)],
        'testTopology': [('Voyager', 'mode 1', 50e9), ('Voyager', None, 75e9), ('Voyager', None, 62.5e9),
                         ('Voyager', 'mode 2', 75e9), ('vendorA_trx-type1', 'PS_SP64_1', 50e9),
                         ('vendorA_trx-type1', None, 75e9), ('Voyager_16QAM', '16QAM', 50e9), ('VerifHard', None, 75e9),
@@ -358,6 +371,56 @@ def explicit_route_batches(bench):
     return out
 
 
+SHEET_COLUMNS = ('route id', 'Source', 'Destination', 'TRX type', 'Mode', 'System: spacing', 'System: input power (dBm)',
+                 'System: nb of channels', 'routing: disjoint from', 'routing: path', 'routing: is loose?', 'path bandwidth')
+
+
+def sheet_rows():
+    """service-sheet rows on the `ila` workbook: route constraints naming in-line amplifier SITES (the sheet entry point
+    resolves a site name to the amplifier of the direction the request crosses it in), both directions, strict / loose"""
+    def row(rid, s, d, path, loose, mode=None, bw=100):
+        return (rid, s, d, 'Voyager', mode, 100 if mode is None else 50, None, None, None, path, loose, bw)
+    return {'e12': row('e12', 'node1', 'node2', 'node1 | siteE | node2', 'no'),
+            'e21': row('e21', 'node2', 'node1', 'node2 | siteE | node1', 'no'),
+            'f12': row('f12', 'node1', 'node2', 'siteF', 'yes', mode='mode 1', bw=200),
+            'f21': row('f21', 'node2', 'node1', 'siteF | node1', 'no', mode='mode 1'),
+            'e21b': row('e21b', 'node2', 'node1', 'siteE', 'yes', bw=300),
+            'ab': row('ab', 'node1', 'node2', 'siteA | siteB', 'no', mode='mode 1'),
+            'ba': row('ba', 'node2', 'node1', 'siteB | siteA', 'no', mode='mode 1')}
+
+
+def sheet_builder(rows):
+    """ids (in order) -> the service data the XLSX entry point (json_io.load_requests on a workbook) produces for a sheet
+    holding exactly those rows"""
+    import tempfile
+    import openpyxl
+    from pathlib import Path
+    from harness.tlc import BUILD
+    from gnpy.tools.json_io import load_requests
+
+    def build(ids):
+        BUILD.mkdir(exist_ok=True)
+        tmp = Path(tempfile.mkdtemp(prefix='sheet-', dir=BUILD))
+        try:
+            wb = openpyxl.load_workbook(TD / 'ila_constraint.xlsx')
+            ws = wb['Service']
+            hdr = next(i for i, r in enumerate(ws.iter_rows(values_only=True), 1) if r and r[0] == 'route id')
+            ws.delete_rows(hdr + 1, ws.max_row)
+            for i in ids:
+                ws.append(list(rows[i]))
+            f = tmp / 'batch.xlsx'
+            wb.save(f)
+            try:
+                net, eq = fresh_network('ila')
+            finally:
+                set_sim('')
+            return load_requests(f, eq, bidir=False, network=net, network_filename=f)
+        finally:
+            import shutil
+            shutil.rmtree(tmp, ignore_errors=True)
+    return build
+
+
 def sync_batches(bench):
     """batches whose requests are tied by synchronization vectors with several feasible disjoint combinations: two
     requests with the same ends, two with a common source, a chain of two vectors.  The vectors list the requests in
@@ -481,13 +544,15 @@ def rx_figures(trx):
     def pen(k):
         if k not in trx.penalties:
             return NONE
-        return udb(float(np.mean(trx.penalties[k])))
+        return udb(float(np.mean(trx.penalties[k])))            # infinite as soon as one carrier is out of tolerance
     if trx.snr is None:
         return dict(NO_RX)
     return dict(snrbw=udb(float(np.mean(trx.snr))), snr01=udb(float(np.mean(trx.snr_01nm))),
                 osnrbw=udb(float(np.mean(trx.osnr_ase))), osnr01=udb(float(np.mean(trx.osnr_ase_01nm))),
                 snrmin=udb(float(np.min(trx.snr_01nm))), snrmax=udb(float(np.max(trx.snr_01nm))),
-                pdl=pen('pdl'), cd=pen('chromatic_dispersion'), pmd=pen('pmd'))
+                pdl=pen('pdl'), cd=pen('chromatic_dispersion'), pmd=pen('pmd'),
+                part=int(any(0 < int(np.isinf(np.atleast_1d(v)).sum()) < np.atleast_1d(v).size
+                             for v in trx.penalties.values())))
 
 
 class PlanRecorder(contextlib.AbstractContextManager):
